@@ -125,7 +125,7 @@ var undecidedClauses = map[string][]string{
 	"C13": {"interoperation with an actual independent obfs3 implementation (the specification is encoded in the postconditions)", "number theory behind the two MODEXP axioms and that modpStr is the 1536-bit RFC 3526 prime", "Dial/WrapConn callers"},
 	"C14": {"interoperation with an actual independent implementation (the specification is encoded in the postconditions instead)", "AES-CTR/SHA-256 themselves (uninterpreted)", "Dial/WrapConn callers and the precondition that the wrapped conn is not itself an obfs2Conn"},
 	"C15": {"behaviour against an actual conforming server (none in the tree)", "end-to-end stream equality across both peers (the contracts decide each side: packet layout as an independent reader decrypts it, only MAC-verified payload surfaces, in order, buffered payload first)", "handshake message generation (ssDHClientHandshake/ssTicketClientHandshake.generateHandshake) and storeTicket are assumed contracts; the JSON content of the ticket file is not decided (only that every successful checkpoint, of an empty store too, rewrites it)", "the two-packet padding case reproduces the reference implementation's off-by-one-header (tail = sample - 21): stated as such, not judged"},
-	"C16": {"the network side of a round trip (status codes, bodies and errors are unconstrained; net/http enters through thin shape/freshness specs)", "that polling EVENTUALLY stops after Close: decided is the safety half (every request is preceded by a receive case on the close channel since the previous request); that Go's randomised select then picks the close case is a fairness assumption", "interleavings of Read/Write callers with the worker goroutine beyond the channel FIFO abstraction", "enqueueWrite's recover() of a send on the closed queue"},
+	"C16": {"the network side of a round trip (status codes, bodies and errors are unconstrained; net/http enters through thin shape/freshness specs)", "that polling EVENTUALLY stops after Close: decided is the safety half (every request is preceded by a receive case on the close channel since the previous request); that Go's randomised select then picks the close case is a fairness assumption", "interleavings of Read/Write callers with the worker goroutine beyond the channel FIFO abstraction", "send on a closed channel is checked (safe.send) and Close/enqueueWrite are verified with sequential models of sync.Once and panic/recover; their behaviour under truly concurrent callers is trusted to the runtime"},
 	"C17": {"round trip of the argument parser with an encoder (none is part of /repo): the parser is proved to be exactly the specified byte-level state machine, but parse(encode(x)) = x needs induction over strings", "the map produced by Args.Add is represented by the ordered log of (key, value) pairs added to it", "Handshake returns success even if disarming the deadline failed (the deferred closure assigns a local that was already returned) - observation, not part of C17"},
 	"C18": {"durability beyond a process kill (fsync, directory entries, power loss)", "json.Unmarshal leaving absent fields untouched (modelled as overwriting all five fields)", "concurrent starts on one state directory", "crash during ssTicketStore.serialize is harmless only because loadTicketStore tolerates any content (proved); the CONTENT written by serialize (json.Marshal of a map) is not decided, only that every successful checkpoint rewrites the store file"},
 	"C19": {"relay prefix / drain-before-close under racing io.Copy goroutines"},
